@@ -430,7 +430,12 @@ func c13RunN3(e *c13Env) {
 				switch Callee(info, call) {
 				case handleM:
 					s.handled = sat(s.handled)
-					if s.stale || s.nonNil != -1 {
+					if s.handled > 1 {
+						cur = finding{key, "a row pulled from the child reaches the row handler a second time before the next pull: it is counted twice"}
+						if key == "handle-once" {
+							return s, pathBad
+						}
+					} else if s.stale || s.nonNil != -1 {
 						cur = finding{key, "the row handler is reached on a path that has not ruled out the child's error"}
 						if key == "handle-once" {
 							return s, pathBad
